@@ -33,7 +33,7 @@ LEVEL_TEXT = ('exploration: ~3*10^3 (quick) / ~3*10^4 (thorough) generated fits 
               'exactly with the fitted polynomial on ~100 points, every Fourier coefficient with its planted value')
 LEVEL_NOTE = 'functions, intervals and degrees not generated are not covered; sup norms are sampled (factor 2 allowance)'
 TECHNIQUE = 'runtime result monitor: exact rational re-evaluation of returned approximations against planted exact objects'
-SHARD_TIMEOUT = {'quick': 400, 'thorough': 3000}
+SHARD_TIMEOUT = {'quick': 1800, 'thorough': 7200}
 
 NSHARDS = 16
 COUNTS = {'quick': {'chebpoly': 70, 'chebsmooth': 24, 'fourier': 20, 'fourierval': 80},
